@@ -397,6 +397,27 @@ def grace_part(ck, prog, pr, seed):
             pr2.prove('get_tracking: a tracking reply is returned and its instant recorded; anything else returns None and leaves the instant unchanged',
                       z3.And(o3.state.pcond(), *mono, L >= 0, L <= t[0]),
                       z3.If(good, z3.And(o3.value.disc() == 1, p_after == (nows[-1].ret if nows else L)), z3.And(o3.value.disc() == 0, p_after == L)))
+    # natively, always: the REAL get_tracking against a stand-in chronyd that answers without tracking data (a Null body with an error
+    # status, undecodable bytes) or with tracking data; a freshly started poller must stay outside the grace period unless it got
+    # tracking data
+    bad = []
+    runs = {}
+    for modes, want in (('null', (False, False)), ('garbage', (False, False)), ('tracking', (True, True)), ('none', (False, False))):
+        out = rpg.ask('gettracking ' + modes)
+        runs[modes] = out[:160]
+        ck.cov['evaluations'] += 1
+        f = dict(x.split('=', 1) for x in out.split()[1:] if '=' in x) if out.startswith('ok') else {}
+        if 'call1_some' not in f or f.get('isolated') != 'true':
+            continue
+        got = (f['call1_some'] == 'true', f['call1_within_grace'] == 'true')
+        if got != want:
+            bad.append('a freshly started poller asks a chronyd that %s: the real get_tracking() returns %s and is_within_grace_period() is then %s (expected %s / %s)'
+                       % ({'null': 'answers with a Null body and status BadPktVersion (no tracking data)', 'garbage': 'answers with undecodable bytes', 'tracking': 'answers with tracking data', 'none': 'is not there'}[modes],
+                          'Some(tracking)' if got[0] else 'None', got[1], 'Some' if want[0] else 'None', want[1]))
+    ck.cov['native_get_tracking'] = runs
+    if bad:
+        ck.violation('grace-after-non-tracking-answer', bad[0] + ': an answer without tracking data counts as a good answer, the grace period (re)starts', {'cmd': 'gettracking', 'native': runs, 'all': bad})
+        pr2.handled = getattr(pr2, 'handled', set()) | {n for n, m_ in pr2.failed if n.startswith('get_tracking:')}
     rpg.close()
     ck.absorb(pr2, 'grace: ')
 
@@ -446,11 +467,18 @@ def poller_order_half(ck, prog, seed):
             bad.append('chronyd was queried before the monotonic clock was read')
         if f and not f.get('clock_ids', '').startswith('6'):
             bad.append('the first clock read is clock id %s, not CLOCK_MONOTONIC_COARSE (6)' % f.get('clock_ids'))
-        ma = re.search(r'asof=(-?\d+)\.(-?\d+)', f.get('msgs', '')) if 'ClockErrorBoundData' in f.get('msgs', '') else None
+        ma = re.search(r'asof=(-?\d+)\.(-?\d+)(?::q=(\d+))?', f.get('msgs', '')) if 'ClockErrorBoundData' in f.get('msgs', '') else None
         if ma:
             a_s, a_n = int(ma.group(1)), int(ma.group(2))
-            if not (0 <= a_n < NS) or a_s * NS + a_n > 123 * NS + 456:
-                bad.append('the as-of instant of the message (%s) is later than the reading taken before the query, or malformed (reading: 123.000000456; the virtual clock advances 1 s per read)' % f.get('msgs'))
+            # the report answers query #q of the iteration (the stand-in chronyd numbers its replies); the clock returns 123.000000456 s
+            # at its first read and 1 s more at each further read: the last reading before query #q is the latest admissible as-of
+            q = int(ma.group(3)) if ma.group(3) else 1
+            rbq = [int(x) for x in f.get('clock_reads_before_query', '').split(',') if x.strip().isdigit()]
+            nread = rbq[q - 1] if 1 <= q <= len(rbq) else 1
+            limit = 123 * NS + 456 + max(0, nread - 1) * NS
+            if not (0 <= a_n < NS) or a_s * NS + a_n > limit or nread < 1:
+                bad.append('the as-of instant of the message (%s) is later than the last clock reading taken before the query it answers (query #%d, issued after %d clock read(s): reading %d.%09d; the virtual clock advances 1 s per read), or malformed'
+                           % (f.get('msgs'), q, nread, limit // NS, limit % NS))
         elif 'ClockErrorBoundData' in f.get('msgs', ''):
             bad.append('the message carries no as-of instant: %s' % f.get('msgs'))
         if bad:
